@@ -199,6 +199,9 @@ def run_federated_experiment(
   client_sampler.set_round_num(start_round_num)
 
   start = time.time()
+  # If no rounds are left to run (e.g. restarting after the last round has
+  # finished), the final evaluation still needs the last completed round.
+  round_num = start_round_num - 1
   for round_num in range(start_round_num, config.num_rounds + 1):
     # Get a random state and randomly sample clients.
     clients = client_sampler.sample()
